@@ -385,6 +385,25 @@ pub fn args(id: &str, prog: Prog, log: &Log) -> ProbeArgs {
     }
 }
 
+/// the message type of a derived reference to a Probe (`ActorRef::get_derived`): converts into `PMsg::Do`
+pub struct DMsg(pub u32, pub Vec<Step>);
+impl From<DMsg> for PMsg {
+    fn from(d: DMsg) -> PMsg {
+        PMsg::Do { tag: d.0, steps: d.1 }
+    }
+}
+impl TryFrom<PMsg> for DMsg {
+    type Error = ();
+    fn try_from(m: PMsg) -> Result<DMsg, ()> {
+        match m {
+            PMsg::Do { tag, steps } => Ok(DMsg(tag, steps)),
+            _ => Err(()),
+        }
+    }
+}
+#[cfg(feature = "alt")]
+impl ractor::Message for DMsg {}
+
 pub fn do_msg(tag: u32, steps: Vec<Step>) -> PMsg {
     PMsg::Do { tag, steps }
 }
